@@ -34,6 +34,7 @@ type inNode struct {
 	val     *big.Int
 	bval    bool
 	vid, vln, vcp *big.Int
+	stream        []byte // kind "stream": the bytes the reader delivers
 }
 
 type replayCtx struct {
@@ -290,6 +291,13 @@ func signed64(v *big.Int) *big.Int {
 func (g *goGen) literal(n *inNode) (string, bool) {
 	ts := g.typeStr(n.T)
 	switch n.kind {
+	case "stream":
+		g.imports["bytes"] = "bytes"
+		var bs []string
+		for _, b := range n.stream {
+			bs = append(bs, fmt.Sprint(b))
+		}
+		return fmt.Sprintf("%s(bytes.NewReader([]byte{%s}))", ts, strings.Join(bs, ",")), true
 	case "iface":
 		if n.vid == nil || n.vid.Sign() == 0 {
 			return fmt.Sprintf("*new(%s)", ts), true
@@ -436,6 +444,28 @@ func (v *Verifier) replayObligation(o *Obligation, fx *FnCtx, fn *ssa.Function, 
 		nodes = append(nodes, rc.build(val.T, val.L, 0))
 		names = append(names, in.Name)
 	}
+	// a single reader among the inputs: the recorded stream reads give the bytes it has to deliver
+	var streamNodes []*inNode
+	var findStreams func(n *inNode, depth int)
+	findStreams = func(n *inNode, depth int) {
+		if n == nil || depth > 3 {
+			return
+		}
+		if n.kind == "iface" && isReaderType(n.T) {
+			streamNodes = append(streamNodes, n)
+		}
+		for _, f := range n.fields {
+			findStreams(f, depth+1)
+		}
+		findStreams(n.pointee, depth+1)
+	}
+	for _, n := range nodes {
+		findStreams(n, 0)
+	}
+	streamOK := len(o.Root.stream) > 0 && !o.Root.streamBad
+	if len(streamNodes) == 1 && streamOK {
+		rc.wantStream(o.Root)
+	}
 	// model query
 	root := o.Root
 	var asserts []*Term
@@ -497,6 +527,10 @@ func (v *Verifier) replayObligation(o *Obligation, fx *FnCtx, fn *ssa.Function, 
 	}
 	for _, n := range nodes {
 		rc.fill(n)
+	}
+	if len(streamNodes) == 1 && streamOK {
+		streamNodes[0].kind = "stream"
+		streamNodes[0].stream = rc.streamBytes(o.Root)
 	}
 	src, err := v.replaySource(o, fx, fn, fc, nodes, names, header)
 	if err != nil {
@@ -800,4 +834,114 @@ func (v *Verifier) runReplayFile(file string, fn *ssa.Function) ReplayResult {
 		}
 	}
 	return res
+}
+
+const streamSliceMax = 64
+
+// isReaderType: an interface type with a Read([]byte) (int, error) method.
+func isReaderType(t types.Type) bool {
+	it, ok := t.Underlying().(*types.Interface)
+	if !ok {
+		return false
+	}
+	for i := 0; i < it.NumMethods(); i++ {
+		if it.Method(i).Name() == "Read" {
+			return true
+		}
+	}
+	return false
+}
+
+func (rc *replayCtx) wantStream(root *RootCtx) {
+	tc := rc.fx.tc
+	for _, sr := range root.stream {
+		rc.want(sr.PC)
+		rc.want(sr.ErrTag)
+		for _, t := range sr.Terms {
+			rc.want(t)
+		}
+		if sr.Heap != nil {
+			rc.want(sr.Len)
+			for k := 0; k < streamSliceMax; k++ {
+				rc.want(Select(Select(sr.Heap, sr.Arr), tc.IdxAdd(sr.Lo, tc.IdxNum(int64(k)))))
+			}
+		}
+	}
+}
+
+// streamBytes serialises (little endian) the reads that the model executes, in order, up to the
+// first read that the model makes fail: the reader ends there.
+func (rc *replayCtx) streamBytes(root *RootCtx) []byte {
+	tc := rc.fx.tc
+	val := func(t *Term) (*big.Int, bool) {
+		if t == nil {
+			return big.NewInt(0), false
+		}
+		if t == True {
+			return nil, true
+		}
+		if t == False {
+			return nil, false
+		}
+		if t.IsNum() {
+			return t.Val, false
+		}
+		k, ok := rc.index[t]
+		if !ok || k >= len(rc.vals) {
+			return big.NewInt(0), false
+		}
+		v, b, ok := parseSMTValue(rc.vals[k])
+		if !ok {
+			return big.NewInt(0), false
+		}
+		if v == nil {
+			return nil, b
+		}
+		return v, false
+	}
+	var out []byte
+	put := func(v *big.Int, w int) {
+		m := new(big.Int).Set(v)
+		if m.Sign() < 0 {
+			m.Add(m, new(big.Int).Lsh(big.NewInt(1), uint(8*w)))
+		}
+		for i := 0; i < w; i++ {
+			out = append(out, byte(new(big.Int).And(new(big.Int).Rsh(m, uint(8*i)), big.NewInt(255)).Int64()))
+		}
+	}
+	for _, sr := range root.stream {
+		if _, on := val(sr.PC); !on {
+			continue
+		}
+		if e, _ := val(sr.ErrTag); e != nil && e.Sign() != 0 {
+			break
+		}
+		for i, t := range sr.Terms {
+			v, b := val(t)
+			if v == nil {
+				v = big.NewInt(0)
+				if b {
+					v = big.NewInt(1)
+				}
+			}
+			put(v, sr.Widths[i])
+		}
+		if sr.Heap != nil {
+			n, _ := val(sr.Len)
+			ln := int(signed64(n).Int64())
+			if ln < 0 || ln > 1<<16 {
+				break
+			}
+			for k := 0; k < ln; k++ {
+				v := big.NewInt(0)
+				if k < streamSliceMax {
+					if x, _ := val(Select(Select(sr.Heap, sr.Arr), tc.IdxAdd(sr.Lo, tc.IdxNum(int64(k))))); x != nil {
+						v = x
+					}
+				}
+				put(v, sr.ElemW)
+			}
+		}
+	}
+	return out
 }
